@@ -142,6 +142,15 @@ CHECKS["C04"] = dict(
     technique="stateful property-based testing with an independent balance checker (accept) and single-digit digest tampering (reject)",
 )
 
+CHECKS["C06"] = dict(
+    engine="conc-store",
+    category="exploration",
+    text="Generated multi-threaded histories (2-4 clients, flush thread, 1-2 compaction threads, tiny memtables, generated perturbation at guard-only yield points) are recorded with invocation/response stamps and decided by an exact linearizability search (Wing-Gong/Lowe with memoisation) under a map model in which a batch is one atomic multi-key write and a scan one atomic range read; held scans are checked as atomic reads at their open time. The OS schedule is not owned, so a violation is exact while absence is weak evidence; that is the strongest level this technique reaches for lock-and-condvar code without rewriting its synchronisation primitives.",
+    design_ref="DESIGN.md §5 C06",
+    note="Values are unique per write. Search budget or watchdog expiry marks a case inconclusive. Replays re-run a case 30 times.",
+    technique="property-based generation of concurrent programs + exact linearizability checking of the recorded histories",
+)
+
 NOT_YET = {
 }
 
@@ -179,6 +188,7 @@ def main():
         "engines": [
             {"name": "store-driver", "path": "harness/vstore/src/driver.rs", "serves_properties": sorted(k for k, v in CHECKS.items() if v["engine"] == "store-driver"), "kind_free_text": "single-threaded model-based step driver over KeyValueStore / LsmTree: generated op vectors interpreted against the real store (per-case directory on tmpfs) and an in-memory model; flush, compaction step, verifier pass and reopen are ops thanks to the step hooks"},
             {"name": "sysshim", "path": "harness/vstore/src/shim.rs", "serves_properties": ["C02", "C08", "C13"], "kind_free_text": "in-binary interposition of libc entry points (open/open64, write, pwrite64, fsync, fdatasync, ftruncate64, rename, link/linkat, unlink/unlinkat, mkdir, rmdir, close) forwarded through dlsym(RTLD_NEXT): counts and traces mutating calls under the store root, _exits before call k with optional loss of unsynced bytes, or fails call k with EIO/ENOSPC; driven by crash.rs / manicheck.rs with child processes"},
+            {"name": "conc-store", "path": "harness/vstore/src/threads.rs", "serves_properties": ["C06", "C07", "C20"], "kind_free_text": "real OS threads against one store: generated client programs, flush and compaction threads, invocation/response stamping, generated perturbation at guard-only yield points, WGL linearizability checker (wgl.rs), exact all-parked stall detector from guard-only parked/notify/progress counters"},
             {"name": "conc", "path": "harness/c18/src/conc.rs", "serves_properties": ["C18"], "kind_free_text": "real OS threads running generated per-thread programs with generated delays / CPU pinning, invariant oracles, and an exact all-parked stall detector (per-thread /proc syscall state + context-switch counters)"},
             {"name": "pbt", "path": "harness/vcore", "serves_properties": sorted(CHECKS.keys()), "kind_free_text": "proptest TestRunner driven from per-property binaries; 16 worker processes, fixed case counts, seeds derived from VERIF_SEED; shrinking; JSON replay files; evidence written by the parent process"},
         ],
